@@ -289,4 +289,257 @@ theorem PipeBmp_C01_repaired (v : Variant) (hv : v.rib.perRecordWithdraw = true)
 
 example : (run ⟨Bmp.repaired, { perRecordWithdraw := true }⟩ exK flapH).rib.query p24 = [⟨3, .active, 7⟩] := by decide
 
+/-! ## (b) C02 over BMP: a Peer Down / a Termination withdraws exactly that peer's / that session's routes -/
+
+/-- **Peer Down, every phase.** In any world — reachable or not, the session Dumping (whatever End-of-RIB
+    markers are pending) or Updating — a Peer Down for a header that is up:
+    every key of another ingress id keeps its stored record and its marker; every route of the peer's id is
+    reported withdrawn with unchanged attributes (absent stays absent); the peer leaves the session's table;
+    every other session, the register and the serial are untouched. -/
+theorem PipeBmp_C02_peerDown (v : Variant) (K : Nat → Hdr → Key) (w : World) (i : Nat) (h : Hdr) (s : Sess) (p : Bmp.Peer)
+    (hs : w.sess[i]? = some s) (hl : s.phase = .dumping ∨ s.phase = .updating) (hf : Bmp.findPeer h s.peers = some p) :
+    let w' := w.step v K (.msg i (.peerDown h))
+    (∀ mc q m, m ≠ p.mui → w'.rib.abs mc q m = w.rib.abs mc q m) ∧
+    (∀ mc q, w'.rib.entry mc q p.mui = (w.rib.entry mc q p.mui).map Rib.setWithdrawn) ∧
+    w'.sess[i]? = some ⟨s.phase, Bmp.erasePeer h s.peers⟩ ∧ (∀ j, j ≠ i → w'.sess[j]? = w.sess[j]?) ∧
+    w'.reg = w.reg ∧ w'.next = w.next := by
+  intro w'
+  have hw : w' = _ := World.step_peerDown v K w i h s p hs hl hf
+  have hlt : i < w.sess.length := (List.getElem?_eq_some_iff.mp hs).1
+  refine ⟨?_, ?_, ?_, ?_, ?_, ?_⟩
+  · intro mc q m hm
+    rw [hw]
+    simp only [Rib.Rib.abs_withdraw, Ne.symm hm, if_false]
+  · intro mc q
+    rw [hw, Rib.Rib.entry_eq_abs, Rib.Rib.entry_eq_abs]
+    simp only [Rib.Rib.abs_withdraw, if_true, Rib.entry_specDown]
+  · rw [hw]; simp [hlt]
+  · intro j hj; rw [hw]; exact getElem?_set_other _ _ _ _ hj
+  · rw [hw]
+  · rw [hw]
+
+/-- **Termination, every phase.** Exactly the routes of the ids of the session's up peers are withdrawn
+    (attributes kept), every key of any other id keeps record and marker; the session ends; other
+    sessions and the register are untouched. -/
+theorem PipeBmp_C02_term (v : Variant) (K : Nat → Hdr → Key) (w : World) (i : Nat) (s : Sess)
+    (hs : w.sess[i]? = some s) (hl : s.phase = .dumping ∨ s.phase = .updating) :
+    let w' := w.step v K (.msg i .term)
+    (∀ mc q m, m ∉ s.peers.map (·.mui) → w'.rib.abs mc q m = w.rib.abs mc q m) ∧
+    (∀ mc q m, m ∈ s.peers.map (·.mui) → w'.rib.entry mc q m = (w.rib.entry mc q m).map Rib.setWithdrawn) ∧
+    w'.sess[i]? = some ⟨.terminated, []⟩ ∧ (∀ j, j ≠ i → w'.sess[j]? = w.sess[j]?) ∧
+    w'.reg = w.reg ∧ w'.next = w.next := by
+  intro w'
+  have hw : w' = _ := World.step_term v K w i s hs hl
+  have hlt : i < w.sess.length := (List.getElem?_eq_some_iff.mp hs).1
+  refine ⟨?_, ?_, ?_, ?_, ?_, ?_⟩
+  · intro mc q m hm
+    rw [hw]
+    simp only [Rib.Rib.abs_withdrawBulk, hm, if_false]
+  · intro mc q m hm
+    rw [hw, Rib.Rib.entry_eq_abs, Rib.Rib.entry_eq_abs]
+    simp only [Rib.Rib.abs_withdrawBulk, hm, if_true, Rib.entry_specDown]
+  · rw [hw]; simp [hlt]
+  · intro j hj; rw [hw]; exact getElem?_set_other _ _ _ _ hj
+  · rw [hw]
+  · rw [hw]
+
+/-- A Peer Down for a header that is not up — in any phase — changes nothing at all. -/
+theorem PipeBmp_C02_reject (v : Variant) (K : Nat → Hdr → Key) (w : World) (i : Nat) (h : Hdr) (s : Sess)
+    (hs : w.sess[i]? = some s) (hf : Bmp.findPeer h s.peers = none) :
+    w.step v K (.msg i (.peerDown h)) = w := World.step_peerDown_reject v K w i h s hs hf
+
+/-- A session in phase Dumping, one peer with a pending End-of-RIB, a second peer and a second router. -/
+def dumpH : History := [.connect 0, .msg 0 .init, .msg 0 (.peerUp 0 true true), .msg 0 (.peerUp 1 true true),
+  .msg 0 (.routeMon 0 tok1 (ann24 5)), .msg 0 (.routeMon 1 tok1 (ann24 6)), .connect 1, .msg 1 .init,
+  .msg 1 (.peerUp 0 false true), .msg 1 (.routeMon 0 tok1 (ann24 7))]
+
+-- the hypotheses are met in phase Dumping with End-of-RIB markers pending, and the conclusion is not trivial
+example : let w := run asWritten exK dumpH
+    w.sess[0]? = some ⟨.dumping, [⟨0, true, [257], 3, true⟩, ⟨1, true, [257], 4, true⟩]⟩ ∧
+    w.rib.query p24 = [⟨3, .active, 5⟩, ⟨4, .active, 6⟩, ⟨6, .active, 7⟩] ∧
+    (w.step asWritten exK (.msg 0 (.peerDown 1))).rib.query p24 = [⟨3, .active, 5⟩, ⟨4, .withdrawn, 6⟩, ⟨6, .active, 7⟩] ∧
+    (w.step asWritten exK (.msg 0 .term)).rib.query p24 = [⟨3, .withdrawn, 5⟩, ⟨4, .withdrawn, 6⟩, ⟨6, .active, 7⟩] := by decide
+
+/-- **Nothing else changes, for every kind of message**: after any history, an event changes the stored
+    record and marker of a key only if one of the RIB events it stands for touches that key (an UPDATE of the
+    key's own id naming the prefix, or a session-level withdrawal of the id). -/
+theorem PipeBmp_C02_frame (v : Variant) (K : Nat → Hdr → Key) (H : History) (e : Ev)
+    (hok : (H ++ [e]).all (Ev.ok v.bmp) = true) (mc : Bool) (p : Rib.Prefix) (m : Mui)
+    (hu : ((Track.init.runFrom K H).step K e).2.all (fun x => !(x.touches mc p m)) = true) :
+    (run v K (H ++ [e])).rib.abs mc p m = (run v K H).rib.abs mc p m := by
+  have hok1 : H.all (Ev.ok v.bmp) = true := by
+    rw [List.all_append, Bool.and_eq_true] at hok; exact hok.1
+  rw [PipeBmp_C01_refinement v K _ hok, PipeBmp_C01_refinement v K H hok1, trace, traceFrom_append]
+  simp only [Rib.specRun, List.foldl_append, traceFrom, List.append_nil]
+  exact Rib.foldl_untouched v.rib mc p m _ hu _
+
+/-! ## (c) C03 over BMP: a peer that comes back -/
+
+theorem trace_split (K : Nat → Hdr → Key) (H1 : History) (e : Ev) (H2 : History) :
+    trace K (H1 ++ e :: H2) = trace K H1 ++ (((Track.init.runFrom K H1).step K e).2
+      ++ traceFrom K ((Track.init.runFrom K H1).step K e).1 H2) := by
+  rw [trace, traceFrom_append, traceFrom_cons]
+  rfl
+
+/-- **The returning peer gets its old ingress id back** (`find_or_register_peer` finds the entry the first
+    Peer Up left in the register): at any later point of any history, on any session, a Peer Up that is
+    accepted for a header of the same key class (router, address, AS, RIB type) is up with the same id.
+    Covers Peer Down / Peer Up on one session and Termination / reconnect of the router. -/
+theorem PipeBmp_id_stable (K : Nat → Hdr → Key) (H1 H2 : History) (i j : Nat) (h h' : Hdr) (e c : Bool)
+    (s s' : TSess) (m : Mui)
+    (hs : (Track.init.runFrom K H1).sess[i]? = some s) (hu : Bmp.lookupUp h s.up = some m)
+    (hs' : (Track.init.runFrom K (H1 ++ H2)).sess[j]? = some s') (hl' : s'.life = .live)
+    (hu' : Bmp.lookupUp h' s'.up = none) (hk : K j h' = K i h) :
+    ∃ s2, ((Track.init.runFrom K (H1 ++ H2)).step K (.msg j (.peerUp h' e c))).1.sess[j]? = some s2 ∧
+      Bmp.lookupUp h' s2.up = some m := by
+  have hi := Track.Inv_runFrom K H1 Track.init (Track.Inv_init K)
+  have hk1 : Bmp.lookupKey (K i h) (Track.init.runFrom K H1).reg = some m := hi i s hs (h, m) (lookupUp_mem hu)
+  have hk2 : Bmp.lookupKey (K j h') (Track.init.runFrom K (H1 ++ H2)).reg = some m := by
+    rw [Track.runFrom_append, hk]
+    exact Track.runFrom_reg_stable K H2 _ _ _ hk1
+  have hlt : j < (Track.init.runFrom K (H1 ++ H2)).sess.length := (List.getElem?_eq_some_iff.mp hs').1
+  rw [Track.step_peerUp K _ j h' e c s' m hs' hl' hu' hk2]
+  exact ⟨⟨.live, s'.up ++ [(h', m)]⟩, by simp [hlt], lookupUp_append_new h' m _ hu'⟩
+
+/-- Clause 1 of C03 over BMP: whatever happened before — in particular a Peer Down / Peer Up of the same
+    peer — a route that an up peer announces, and that nothing later touches, is reported active with
+    the announced attributes. -/
+def PipeBmp_C03_full (v : Variant) : Prop :=
+  ∀ (K : Nat → Hdr → Key) (H1 H2 : History) (i : Nat) (h : Hdr) (t : Bmp.Rm) (a : Rib.AttrId) (ann wd : List Rib.Nlri)
+    (mc : Bool) (p : Rib.Prefix) (m : Mui) (s : TSess),
+    (H1 ++ .msg i (.routeMon h t (.ok a ann wd)) :: H2).all (Ev.ok v.bmp) = true →
+    (Track.init.runFrom K H1).sess[i]? = some s → s.life = .live → Bmp.lookupUp h s.up = some m →
+    deliverable t = true → (⟨p, Rib.safiOf mc⟩ : Rib.Nlri) ∈ ann → (⟨p, Rib.safiOf mc⟩ : Rib.Nlri) ∉ wd →
+    (traceFrom K (Track.init.runFrom K H1) H2).all (fun e => !(e.touches mc p m)) = true →
+    (run v K (H1 ++ .msg i (.routeMon h t (.ok a ann wd)) :: H2)).rib.entry mc p m = some (.active, a)
+
+/-- The RIB history around an announcement of an up peer. -/
+theorem trace_announce (K : Nat → Hdr → Key) (H1 H2 : History) (i : Nat) (h : Hdr) (t : Bmp.Rm) (u : Rib.Upd)
+    (m : Mui) (s : TSess) (hs : (Track.init.runFrom K H1).sess[i]? = some s) (hl : s.life = .live)
+    (hu : Bmp.lookupUp h s.up = some m) (hd : deliverable t = true) :
+    trace K (H1 ++ .msg i (.routeMon h t u) :: H2)
+      = trace K H1 ++ .upd m u :: traceFrom K (Track.init.runFrom K H1) H2 := by
+  rw [trace_split, Track.step_routeMon K _ i h t u s m hs hl hu hd]
+  rfl
+
+/-- **The code as it is (every variant that keeps the store's global marker), exactly:** the announcement
+    is reported `withdrawn` iff a Peer Down / Termination named the peer's ingress id anywhere earlier. -/
+theorem PipeBmp_C03_flap_exact (v : Variant) (hv : v.rib.perRecordWithdraw = false)
+    (K : Nat → Hdr → Key) (H1 H2 : History) (i : Nat) (h : Hdr) (t : Bmp.Rm) (a : Rib.AttrId) (ann wd : List Rib.Nlri)
+    (mc : Bool) (p : Rib.Prefix) (m : Mui) (s : TSess)
+    (hok : (H1 ++ .msg i (.routeMon h t (.ok a ann wd)) :: H2).all (Ev.ok v.bmp) = true)
+    (hs : (Track.init.runFrom K H1).sess[i]? = some s) (hl : s.life = .live) (hu : Bmp.lookupUp h s.up = some m)
+    (hd : deliverable t = true) (hA : (⟨p, Rib.safiOf mc⟩ : Rib.Nlri) ∈ ann) (hW : (⟨p, Rib.safiOf mc⟩ : Rib.Nlri) ∉ wd)
+    (h2u : (traceFrom K (Track.init.runFrom K H1) H2).all (fun e => !(e.touches mc p m)) = true) :
+    (run v K (H1 ++ .msg i (.routeMon h t (.ok a ann wd)) :: H2)).rib.entry mc p m
+      = some (if (trace K H1).any (Rib.Ev.downs m) then .withdrawn else .active, a) := by
+  rw [(PipeBmp_refines v K _ hok).2, trace_announce K H1 H2 i h t _ m s hs hl hu hd]
+  exact flap_exact v.rib hv (trace K H1) _ mc p m a ann wd hA hW h2u
+
+/-- **(c) as the task states it, for the code as it is: always violated.** After *any* history in which
+    a peer is up: Peer Down, Peer Up again, the peer announces `p` — and `p` is reported **withdrawn**
+    (with the new attributes), however long nothing else touches it. -/
+theorem PipeBmp_C03_flap (v : Variant) (hv : v.rib.perRecordWithdraw = false)
+    (K : Nat → Hdr → Key) (H1 H2 : History) (i : Nat) (h : Hdr) (e c : Bool) (t : Bmp.Rm) (a : Rib.AttrId)
+    (ann wd : List Rib.Nlri) (mc : Bool) (p : Rib.Prefix) (m : Mui) (s : TSess)
+    (hok : (H1 ++ flapMsgs i h e c ++ .msg i (.routeMon h t (.ok a ann wd)) :: H2).all (Ev.ok v.bmp) = true)
+    (hs : (Track.init.runFrom K H1).sess[i]? = some s) (hl : s.life = .live) (hu : Bmp.lookupUp h s.up = some m)
+    (hd : deliverable t = true) (hA : (⟨p, Rib.safiOf mc⟩ : Rib.Nlri) ∈ ann) (hW : (⟨p, Rib.safiOf mc⟩ : Rib.Nlri) ∉ wd)
+    (h2u : (traceFrom K (Track.init.runFrom K (H1 ++ flapMsgs i h e c)) H2).all
+      (fun e => !(e.touches mc p m)) = true) :
+    (run v K (H1 ++ flapMsgs i h e c ++ .msg i (.routeMon h t (.ok a ann wd)) :: H2)).rib.entry mc p m
+      = some (.withdrawn, a) := by
+  have hi := Track.Inv_runFrom K H1 Track.init (Track.Inv_init K)
+  obtain ⟨s2, hs2, hl2, hu2, htr, _⟩ := Track.flap_segment K _ hi i h e c s m hs hl hu
+  rw [← Track.runFrom_append] at hs2
+  rw [PipeBmp_C03_flap_exact v hv K _ H2 i h t a ann wd mc p m s2 hok hs2 hl2 hu2 hd hA hW h2u]
+  have : (trace K (H1 ++ flapMsgs i h e c)).any (Rib.Ev.downs m) = true := by
+    rw [trace, traceFrom_append, htr]
+    simp [Rib.Ev.downs]
+  rw [this]
+  rfl
+
+/-- Hence clause 1 fails for every variant that keeps the global marker — the code as written and the
+    tree after the overlap and End-of-RIB repairs alike. Witness: `flapH`. -/
+theorem PipeBmp_C03_counterexample (v : Variant) (hv : v.rib.perRecordWithdraw = false) : ¬ PipeBmp_C03_full v := by
+  intro hf
+  have hok : flapH.all (Ev.ok v.bmp) = true := by
+    have : ∀ vb : Bmp.Variant, flapH.all (Ev.ok vb) = true := by
+      intro vb
+      obtain ⟨g, e⟩ := vb
+      cases g <;> cases e <;> decide
+    exact this v.bmp
+  have h1 := hf exK [.connect 0, .msg 0 .init, .msg 0 (.peerUp 0 false true), .msg 0 (.routeMon 0 tok1 (ann24 5)),
+    .msg 0 (.peerDown 0), .msg 0 (.peerUp 0 false true)] [] 0 0 tok1 7 [⟨p24, .unicast⟩] [] false p24 3
+    ⟨.live, [(0, 3)]⟩ hok (by decide) rfl (by decide) (by decide) (by decide) (by decide) (by decide)
+  have h2 := PipeBmp_C03_flap v hv exK [.connect 0, .msg 0 .init, .msg 0 (.peerUp 0 false true), .msg 0 (.routeMon 0 tok1 (ann24 5))]
+    [] 0 0 false true tok1 7 [⟨p24, .unicast⟩] [] false p24 3 ⟨.live, [(0, 3)]⟩ hok (by decide) rfl (by decide) (by decide)
+    (by decide) (by decide) (by decide)
+  simp only [flapMsgs, List.cons_append, List.nil_append] at h1 h2
+  rw [h2] at h1
+  cases h1
+
+example : (run asWritten exK flapH).rib.query p24 = [⟨3, .withdrawn, 7⟩] := by decide
+example : (run ⟨Bmp.repaired, { overlapFix := true }⟩ exK flapH).rib.query p24 = [⟨3, .withdrawn, 7⟩] := by decide
+
+/-- **(c), partial, code as it is:** clause 1 holds for a peer whose ingress id no Peer Down / Termination
+    has named so far — a peer's first session, and every peer of a router while *other* peers or routers flap. -/
+theorem PipeBmp_C03_partial (v : Variant) (hv : v.rib.perRecordWithdraw = false)
+    (K : Nat → Hdr → Key) (H1 H2 : History) (i : Nat) (h : Hdr) (t : Bmp.Rm) (a : Rib.AttrId) (ann wd : List Rib.Nlri)
+    (mc : Bool) (p : Rib.Prefix) (m : Mui) (s : TSess)
+    (hnd : (trace K H1).any (Rib.Ev.downs m) = false)
+    (hok : (H1 ++ .msg i (.routeMon h t (.ok a ann wd)) :: H2).all (Ev.ok v.bmp) = true)
+    (hs : (Track.init.runFrom K H1).sess[i]? = some s) (hl : s.life = .live) (hu : Bmp.lookupUp h s.up = some m)
+    (hd : deliverable t = true) (hA : (⟨p, Rib.safiOf mc⟩ : Rib.Nlri) ∈ ann) (hW : (⟨p, Rib.safiOf mc⟩ : Rib.Nlri) ∉ wd)
+    (h2u : (traceFrom K (Track.init.runFrom K H1) H2).all (fun e => !(e.touches mc p m)) = true) :
+    (run v K (H1 ++ .msg i (.routeMon h t (.ok a ann wd)) :: H2)).rib.entry mc p m = some (.active, a) := by
+  rw [PipeBmp_C03_flap_exact v hv K H1 H2 i h t a ann wd mc p m s hok hs hl hu hd hA hW h2u, hnd]
+  rfl
+
+-- the guard holds for router 1's peer in `exH` although router 0's peer flapped, and it excludes the flap
+example : let H1 := exH.take 8
+    (trace exK (H1 ++ [.msg 0 (.peerDown 0), .msg 0 (.peerUp 0 true true)])).any (Rib.Ev.downs 5) = false ∧
+    (trace exK (H1 ++ [.msg 0 (.peerDown 0), .msg 0 (.peerUp 0 true true)])).any (Rib.Ev.downs 3) = true := by decide
+
+/-- **(c), repaired RIB:** with per-record withdrawal clause 1 holds for every BMP history. -/
+theorem PipeBmp_C03_repaired (v : Variant) (hv : v.rib.perRecordWithdraw = true) : PipeBmp_C03_full v := by
+  intro K H1 H2 i h t a ann wd mc p m s hok hs hl hu hd hA hW h2u
+  rw [(PipeBmp_refines v K _ hok).2, trace_announce K H1 H2 i h t _ m s hs hl hu hd]
+  exact Rib.C03_repaired v.rib hv (trace K H1) _ mc p m a ann wd hA hW h2u
+
+example : (run ⟨Bmp.repaired, { overlapFix := true, perRecordWithdraw := true }⟩ exK flapH).rib.query p24
+    = [⟨3, .active, 7⟩] := by decide
+
+/-- **Clause 2, every variant: what the returning peer does not announce again stays withdrawn.** After an
+    event `e` that stands for a session-level withdrawal naming id `m` (a Peer Down of the peer, a Termination
+    of its session), as long as no later event announces `(table, p)` on behalf of `m`, the route is reported
+    exactly as before the outage but withdrawn — through Peer Ups, other peers' traffic, further flaps. -/
+theorem PipeBmp_C03_stale (v : Variant) (K : Nat → Hdr → Key) (H1 H2 : History) (e : Ev) (d : Rib.Ev)
+    (mc : Bool) (p : Rib.Prefix) (m : Mui)
+    (hok : (H1 ++ e :: H2).all (Ev.ok v.bmp) = true)
+    (he : ((Track.init.runFrom K H1).step K e).2 = [d]) (hd : d.downs m = true)
+    (hna : (traceFrom K ((Track.init.runFrom K H1).step K e).1 H2).all (fun x => !(x.announces mc p m)) = true) :
+    (run v K (H1 ++ e :: H2)).rib.entry mc p m = ((run v K H1).rib.entry mc p m).map Rib.setWithdrawn := by
+  have hok1 : H1.all (Ev.ok v.bmp) = true := by
+    rw [List.all_append, Bool.and_eq_true] at hok; exact hok.1
+  rw [(PipeBmp_refines v K _ hok).2, (PipeBmp_refines v K H1 hok1).2, trace_split, he]
+  exact Rib.C03_stale v.rib (trace K H1) _ d mc p m hd hna
+
+/-- The two instances of `he` above. -/
+theorem step_evs_peerDown (K : Nat → Hdr → Key) (T : Track) (i : Nat) (h : Hdr) (s : TSess) (m : Mui)
+    (hs : T.sess[i]? = some s) (hl : s.life = .live) (hu : Bmp.lookupUp h s.up = some m) :
+    (T.step K (.msg i (.peerDown h))).2 = [.down m] := by
+  rw [Track.step_peerDown K T i h s m hs hl hu]
+
+theorem step_evs_term (K : Nat → Hdr → Key) (T : Track) (i : Nat) (s : TSess)
+    (hs : T.sess[i]? = some s) (hl : s.life = .live) (hne : s.up ≠ []) :
+    (T.step K (.msg i .term)).2 = [.downBulk (s.up.map (·.2))] := by
+  rw [Track.step_term K T i s hs hl hne]
+
+-- peer 0 of router 0 announced p24 (attributes 5), went down, came back and announced something else:
+example : let H := [Ev.connect 0, .msg 0 .init, .msg 0 (.peerUp 0 false true), .msg 0 (.routeMon 0 tok1 (ann24 5)),
+      .msg 0 (.peerDown 0), .msg 0 (.peerUp 0 false true),
+      .msg 0 (.routeMon 0 tok1 (.ok 7 [⟨⟨.v4, 8, 10⟩, .unicast⟩] []))]
+    (run asWritten exK H).rib.entry false p24 3 = some (.withdrawn, 5) := by decide
+
 end Rotonda.PipeBmp
